@@ -9,7 +9,7 @@ from __future__ import annotations
 
 import re
 
-from .engine import Ch, HarnessError, SymStr, eng
+from .engine import Ch, HarnessError, SymStr, Unsupported, eng
 
 PLACEHOLDER = re.compile(r"(zq[a-z0-9]+)", re.I)
 
@@ -130,6 +130,14 @@ class ParsedStatement:
                 if s not in self.slots:
                     self.slots.append(s)
         self._orig = [(leaf, str(leaf.__dict__["_raw"])) for leaf in self._leaves(seg)]
+        # sqlfluff (>= 3.1) also caches the leaf's NORMALISED text (quotes removed, escapes undone) for raw_normalized():
+        # where it is the raw text minus fixed delimiters, it is re-derived from the symbolic raw text; otherwise poisoned
+        self._orig_value = {}
+        for leaf, raw in self._orig:
+            v = leaf.__dict__.get("_raw_value")
+            if isinstance(v, str):
+                i = raw.find(v)
+                self._orig_value[id(leaf)] = (v, (i, len(raw) - i - len(v)) if (i >= 0 and v) else (None if v else (0, len(raw))))
         self._const_cache = {}
 
     @staticmethod
@@ -183,6 +191,14 @@ class ParsedStatement:
                 seg.__dict__["_raw"] = s
                 seg.__dict__["_raw_upper"] = su
                 seg.__dict__.pop("raw_normalized", None)
+                if id(seg) in self._orig_value:
+                    v0, cut = self._orig_value[id(seg)]
+                    if s.concrete() and not PLACEHOLDER.search(orig[id(seg)]):
+                        seg.__dict__["_raw_value"] = v0        # untouched leaf: sqlfluff's own value stands
+                    elif cut is None:
+                        seg.__dict__["_raw_value"] = _Poison("normalised text of %r is not its raw text minus delimiters" % orig[id(seg)])
+                    else:
+                        seg.__dict__["_raw_value"] = SymStr(s.cs[cut[0]:len(s.cs) - cut[1]])
                 return s, su
             cs, us = [], []
             for c in seg.segments:
@@ -210,6 +226,21 @@ class ParsedStatement:
             return concrete_names[slot]
 
         return PLACEHOLDER.sub(sub, self.sql)
+
+
+class _Poison:
+    """stands in for a cached text that cannot be re-derived symbolically: any use is refused"""
+
+    def __init__(self, why):
+        self._why = why
+
+    def __getattr__(self, k):
+        raise Unsupported("sqlfluff normalised leaf text: " + self._why)
+
+    def __str__(self):
+        raise Unsupported("sqlfluff normalised leaf text: " + self._why)
+
+    __repr__ = __add__ = __radd__ = __eq__ = __hash__ = __len__ = __iter__ = __contains__ = __str__
 
 
 _PARSE_CACHE = {}
